@@ -305,9 +305,12 @@ func (s *scenario) tamper(i *inst, q dns.Question, honest *dns.Msg) *dns.Msg {
 	}
 	qn := lcn(q.Name)
 	first := strings.SplitN(qn, ".", 2)[0]
+	if strings.HasPrefix(first, "sr-") {
+		first = "sr"
+	}
 	glue := &dns.A{Hdr: dns.RR_Header{Name: i.nsHost, Rrtype: dns.TypeA, Class: dns.ClassINET, Ttl: hugeTTL}, A: i.srv.IP}
 	if dns.IsSubDomain(i.name, qn) && (first == "sr" || first == "up") && honest != nil {
-		if s.race == i && first == "sr" && i.hasBound[s.raceLin] {
+		if s.race == i && i.hasBound[s.raceLin] {
 			s.race = nil
 			if d := i.bound[s.raceLin] + slack + 500*time.Millisecond - s.vnow(); d > 0 {
 				s.p.Advance(d)
@@ -671,12 +674,13 @@ func execQuery(s *scenario, f []string) vlib.Res {
 						if a != o {
 							rel = "deeper"
 						}
+						sig := fmt.Sprintf("l3/reply/stale-%s/%s", kind, rel)
 						if vq < a.ubound[lin] {
 							// the lease ended only because of the 12 h ceiling; the NS/DS TTLs alone would still run
-							rel += "/only-12h-ceiling"
+							sig = "l3/reply/served-past-12h-ceiling"
 						}
-						stale = fmt.Sprintf("FAIL sig=l3/reply/stale-%s/%s q=%s/%s from=%s#%d lease-of=%s#%d ended=%s ago rr=%q",
-							kind, rel, lcn(f[2]), f[3], o.name, o.gen, a.name, a.gen, (vq - a.bound[lin]).Round(time.Millisecond), strings.Join(strings.Fields(rr.String()), " "))
+						stale = fmt.Sprintf("FAIL sig=%s kind=%s/%s q=%s/%s from=%s#%d lease-of=%s#%d ended=%s ago rr=%q",
+							sig, kind, rel, lcn(f[2]), f[3], o.name, o.gen, a.name, a.gen, (vq - a.bound[lin]).Round(time.Millisecond), strings.Join(strings.Fields(rr.String()), " "))
 					}
 				}
 			}
@@ -689,7 +693,7 @@ func execQuery(s *scenario, f []string) vlib.Res {
 	tags := "nt,l3"
 	if resp == nil || resp.Rcode == dns.RcodeServerFailure {
 		first := strings.SplitN(lcn(f[2]), ".", 2)[0]
-		if first != "sr" && first != "up" {
+		if first != "sr" && first != "up" && !strings.HasPrefix(first, "sr-") {
 			tags += ",servfail"
 			// "sdns follows the parent as soon as that lease ends": past the lease end of a
 			// withdrawn / re-pointed delegation the name must resolve to what the parent now
@@ -825,7 +829,7 @@ func execL3(f []string) vlib.Res {
 		}
 		s.quiesce()
 		s.race, s.raceLin = target, lin
-		g := []string{"l3", "q", "sr." + target.name, "A"}
+		g := []string{"l3", "q", "sr-race." + target.name, "A"}
 		if lin == 1 {
 			g = append(g, "cd")
 		}
@@ -879,11 +883,18 @@ func allowCeilingGap() bool {
 		if err != nil {
 			return
 		}
+		a, b2 := false, false
 		for _, ln := range strings.Split(string(b), "\n") {
-			if strings.Contains(ln, "\"C08\"") && strings.Contains(ln, "only-12h-ceiling") && strings.Contains(ln, "\"known\"") {
-				ceilingOn = true
+			if strings.Contains(ln, "\"C08\"") && strings.Contains(ln, "\"known\"") {
+				if strings.Contains(ln, "l3/reply/served-past-12h-ceiling") {
+					a = true
+				}
+				if strings.Contains(ln, "l3/lease/descendant-outlives-ancestor/ceiling-reanchored") {
+					b2 = true
+				}
 			}
 		}
+		ceilingOn = a && b2
 	})
 	return ceilingOn
 }
@@ -959,6 +970,12 @@ func genL3Case(r *vlib.R, n int, emit func(string)) int {
 	case 6: // the 12 h ceiling decides
 		nsT[vic-1], dsT[vic-1] = vlib.Pick(r, []int{43199, 43200}), 43200
 		attl, neg = 86400, 86400
+	case 7:
+		if allowCeilingGap() {
+			// NS/DS TTLs beyond the ceiling and data that lives longer than 12 h
+			nsT[vic-1], dsT[vic-1] = vlib.Pick(r, longTTLs), vlib.Pick(r, longTTLs)
+			attl, neg = 86400, 86400
+		}
 	}
 	secI := 0
 	if sec {
